@@ -358,6 +358,52 @@ SUITE_STAGE = {'C01', 'C02', 'C03', 'C04', 'C05', 'C06', 'C13'}
 SUITE_QUICK = {'C02', 'C03', 'C05'}
 
 
+def run_queries_stage(prop, charts, rng):
+    """Chart.tla's structural operators against the real Statechart queries, for every chart of the stage."""
+    import realize
+    t0 = time.time()
+    name = '%s_queries' % prop
+    d = tlc.workdir(name)
+    with open(os.path.join(d, 'ChartsData.tla'), 'w') as f:
+        f.write(gc.tla_charts_module('ChartsData', charts))
+    lines = []
+    for ci, c in enumerate(charts, 1):
+        sc, names = realize.build(c, 'api', 'plain', seed=ci)
+        ids = {v: k for k, v in names.items()}
+        n = c['n']
+        st = range(1, n + 1)
+        samples = []
+        for _ in range(6):
+            sub = [s for s in st if rng.random() < 0.5] or [1]
+            samples.append([sub, sorted(ids[x] for x in sc.leaf_for([names[s] for s in sub]))])
+        lines.append({'id': ci, 'ci': ci,
+                      'anc': [[ids[x] for x in sc.ancestors_for(names[s])] for s in st],
+                      'desc': [sorted(ids[x] for x in sc.descendants_for(names[s])) for s in st],
+                      'depth': [sc.depth_for(names[s]) for s in st],
+                      'kids': [sorted(ids[x] for x in sc.children_for(names[s])) for s in st],
+                      'lca': [[ids.get(sc.least_common_ancestor(names[a], names[b]), 0) for b in st] for a in st],
+                      'leaves': samples,
+                      'events': sorted(int(e[1:]) for e in sc.events_for()),
+                      'root': ids[sc.root]})
+    path = os.path.join(d, 'traces.json')
+    json.dump(lines, open(path, 'w'))
+    tlc.write_mc(d, 'ChartQueries', {}, spec='TSpec', invariants=['Report'])
+    tr = tlc.run(d, env={'TRACE_FILE': path}, timeout=1800)
+    reports = {j['id']: j for j in tr['json'] if isinstance(j, dict) and 'id' in j}
+    if tr['error'] or len(reports) != len(lines):
+        raise Machinery('ChartQueries trace check failed or incomplete: %s' % tr['error'])
+    viol = []
+    for ln in lines:
+        bad = reports[ln['id']]['bad']
+        bad = [] if isinstance(bad, dict) else bad
+        if bad:
+            viol.append((ln, bad))
+    out = dict(stage='tree-queries', charts=len(charts), mc_states=0, mc_transitions=0, traces=len(lines), edge_traces=0,
+               random_traces=0, lines_evaluated=len(lines), cross_failures={}, divergences=0, model_violations=0,
+               mc_completed=True, wall_s=round(time.time() - t0, 2), trace_cmd=tr['cmd'])
+    return out, viol
+
+
 def run_suite_stage(prop, tier):
     """The repository's own test-suite and documentation examples, run under the trace hook; every
     Interpreter they create is one recorded run evaluated by TLC (opaque mode)."""
@@ -599,6 +645,18 @@ def main(prop, tier, seed, replay_path=None):
             if out['model_violations'] and not viol:
                 raise Machinery('the operational model violates %s on an input the real code handles '
                                 'correctly: the model misrepresents the code (see %s)' % (prop, mc['dir']))
+        if prop == 'C02':
+            qcharts = stages[0]['charts']
+            out, qviol = run_queries_stage(prop, qcharts, rng)
+            cov['stages'].append(out)
+            cov['traces_validated_against_impl'] += out['traces']
+            for (ln, bad) in qviol:
+                nviol += 1
+                if nviol <= 5:
+                    path = evd.write_replay(prop, nviol, {'property': prop, 'chart': qcharts[ln['ci'] - 1], 'answers': ln,
+                                                          'failing': bad})
+                    lines_out.append('VIOLATION property=%s replay=%s' % (prop, path))
+                    lines_out.append('  structural queries disagree with Chart.tla: %s' % bad)
         if prop == 'C09':
             out, viol, allcharts, samples = run_shipped_twin_stage(prop, tier, seed)
             cov['stages'].append(out)
